@@ -725,7 +725,7 @@ func (ck *Check) validationGate(rule string) {
 				why = append(why, "the validated value is not the loop element: "+arg.String())
 			}
 		}
-		body := And(ctx.BlockPC(l.Header), ctx.edgeCond(l.Header, l.Header.Succs[0]))
+		body := l.bodyPC(ctx)
 		if eq, _, _ := Equivalent(ctx.PC(vc), body); !eq {
 			okAll = false
 			why = append(why, "validation is conditional: "+ctx.PC(vc).String())
